@@ -11,6 +11,13 @@ def stepC09 (s : Topo) (j : Json) : Topo × Json :=
                         ("cpEdgeOk", Json.bool (decide (CpEdgeOk s))), ("spLeaf", Json.bool (decide (SpLeaf s))),
                         ("spOwned", Json.bool (decide (SpOwned s))), ("spPeer1", Json.bool (decide (SpPeer1 s))),
                         ("removeHyp", Json.bool (decide (FimVerif.C09.RemoveHyp s)))]))
+  else if FimVerif.TopoRun.getStr j "op" == "update_caplab" then
+    -- third alphabet (Model/TopoC09.lean): dispatched through `Topo.stepY`, what `C09.atomic_yop` is about
+    let arg := match FimVerif.TopoRun.propArgs j "props" with
+      | a :: _ => a
+      | [] => PropArg.ok "StitchNode" "false"      -- stale handle: the read fails before the argument matters
+    FimVerif.TopoRun.finish (stepY (.updateCaplab (FimVerif.TopoRun.nidOfString (FimVerif.TopoRun.getStr j "nid")) arg) s)
+      FimVerif.TopoRun.outRet FimVerif.TopoRun.outCache
   else FimVerif.TopoRun.step s j
 
 def main : IO Unit := runState FimVerif.Topo.Topo.empty stepC09
